@@ -151,7 +151,7 @@ func run(c *vf.Ctx) {
 		"plus the STEERED-ACCUMULATOR family: for {New,NewX} x ciphertext lengths %v x AD lengths %v, messages crafted with math/big (one free 16-byte ciphertext block solved, nonce/filler varied) so that the AEAD's own Poly1305 accumulator, "+
 		"right before the lengths block and right before the final reduction, has low limb in {0,1,2^64-adLen-1,2^64-adLen,2^64-1,2^64-5,2^64-6} x middle limb {0,2^64-1} x top limb {0..3}, or equals 0..4, p-5..p+4, 2^130..2^130+4; sealed and opened (nil and in-place dst) on both paths; "+
 		"plus the LONG family: {New,NewX} x plaintext lengths 2^k+{-1,0,1,15..17,63..65,127..129,191..193,255..257,319..321,383..385,447..449,511..513} for k=16..22 (4 MiB) x AD lengths %v x dst{prefix+spare, in place} (quick: above 2^18 only the offsets up to 65 and the 13-byte AD), one seeded value class, both paths, Seal and Open against the model; "+
-		"plus the HISTORY family: a fresh AEAD is taken through every history of 0..2 calls from {failed Open into spare capacity, failed Open in place, Seal of another message under another nonce, Open of that other message, Open of a 7-byte input} and must then Seal/Open like the model, for %d plaintext lengths (b-1,b,b+1 for b in 0,16,32,64,128,...,512,1024,4096; 289, 700) x AD {0,13,17} x dst{prefix+spare, in place} x {New,NewX} x both paths; "+
+		"plus the HISTORY family: a fresh AEAD is taken through every history of 0..2 calls from {failed Open into spare capacity, failed Open in place, Seal / Open of another message under a nonce that differs in one middle byte only, Seal / Open of it under a nonce that differs in the last byte only, Open of a 7-byte input} and must then Seal/Open like the model, for %d plaintext lengths (b-1,b,b+1 for b in 0,16,32,64,128,...,512,1024,4096; 289, 700) x AD {0,13,17} x dst{prefix+spare, in place} x {New,NewX} x both paths; "+
 		"in every family the key slice given to New/NewX is a private copy that is overwritten right after the constructor returned; "+
 		"oracle = verif/ref/aeadref (plain block function + math/big Poly1305, RFC KATs)", len(pls), map[bool]int{false: 1024, true: 8192}[c.Thorough], len(als), len(epls), len(eals), aeadsteer.Lens, aeadsteer.ADLens, longADs, len(histLens())))
 	c.Assume("math/big arithmetic is correct; values outside the alphabet are not enumerated; Poly1305 carry corner cases inside the AEAD code are reached through crafted messages for the listed accumulator targets only (limb values of intermediate blocks are not steered)")
